@@ -269,7 +269,7 @@ func TestVerif_C14_Variable(t *testing.T) {
 
 func TestVerif_C14_Mixed(t *testing.T) {
 	rec := stats.Get("C14", "mixed")
-	rec.Rule("rapid: ScalarMixedMult_Unsafe(g,P,s): g,s 32-byte scalars (shapes as above, 0, n-1, n, 2^256-1), P as in the variable test; and the coincidences [g]G = +-[s]P built from P=[m]G, g = +-s*m mod n (result 2[g]G or infinity), g = 0 or s = 0; and P = [d]G with d solved so that the accumulator of the interleaved loop passes through the point at infinity right after a chosen inner addition. Oracle: sm2ref.Mul(g,G)+sm2ref.Mul(s,P). Non-trivial: structured scalar or special point or coincidence; distinct by (g,P,s).")
+	rec.Rule("rapid: ScalarMixedMult_Unsafe(g,P,s): g,s 32-byte scalars (shapes as above, 0, n-1, n, 2^256-1), P as in the variable test; and the coincidences [g]G = +-[s]P built from P=[m]G, g = +-s*m mod n (result 2[g]G or infinity), g = 0 or s = 0; and P solved so that the accumulator of the interleaved loop holds a special value right before a chosen inner addition: infinity, a point with x = 0, the addend itself (doubling case) or its negative. Oracle: sm2ref.Mul(g,G)+sm2ref.Mul(s,P). Non-trivial: structured scalar or special point or coincidence; distinct by (g,P,s).")
 	t.Cleanup(stats.FlushAll)
 	rapid.Check(t, func(t *rapid.T) {
 		mode := gen.Pick(t, "mode", "free", "free", "free", "coincide+", "coincide-", "g=0", "s=0", "midway-infinity", "midway-infinity")
@@ -298,13 +298,13 @@ func TestVerif_C14_Mixed(t *testing.T) {
 					s[i] = 0
 				}
 			}
-			d, where, ok := sm2gen.MidwayInfinity(t, "mid", new(big.Int).SetBytes(g), new(big.Int).SetBytes(s))
+			sp, where, ok := sm2gen.MidwaySpecial(t, "mid", new(big.Int).SetBytes(g), new(big.Int).SetBytes(s))
 			if !ok {
 				mode = "free"
 				P, pcls = c14Point(t, "P")
 				break
 			}
-			P, pcls = sm2ref.Mul(d, sm2ref.G), "solved:"+where[:min(len(where), 24)]
+			P, pcls = sp, "solved:"+where[:min(len(where), 34)]
 		default:
 			r := gen.Rand(t, "seed")
 			m := new(big.Int).SetBytes(gen.RandBytes(r, 40))
